@@ -608,6 +608,11 @@ impl<'db> AbiBuilder<'db> {
                     }
                 };
                 let concrete_variants = self.db.concrete_enum_variants(*concrete_enum_id)?;
+                // The derive sees every variant, the enum only the distinctly named ones - a
+                // duplicate name is already reported as a semantic error.
+                if variants.len() != concrete_variants.len() {
+                    return Err(ABIError::SemanticError);
+                }
                 let event_fields = zip_eq(variants, concrete_variants)
                     .map(|((name, kind), concrete_variant)| {
                         let source = Source::Variant(concrete_variant.id);
